@@ -132,6 +132,18 @@ func keepAliveOne(g *gen, fr map[string]interface{}) vh.Event {
 	t0 := time.Now()
 	ctx, stopAll := context.WithCancel(context.Background())
 	defer stopAll()
+	// did this process keep time?  A goroutine that sleeps 5 ms at a time records by how much it overslept at worst:
+	// on a machine that is too busy to schedule it, stop times say nothing about the code under test
+	var late int64
+	go func() {
+		for ctx.Err() == nil {
+			a := time.Now()
+			time.Sleep(5 * time.Millisecond)
+			if d := int64(time.Since(a)/time.Millisecond) - 5; d > atomic.LoadInt64(&late) {
+				atomic.StoreInt64(&late, d)
+			}
+		}
+	}()
 	// readers: whatever arrives is taken off the connection
 	for _, c := range []*connection.Conn{a, b} {
 		go func(c *connection.Conn) {
@@ -192,6 +204,7 @@ func keepAliveOne(g *gen, fr map[string]interface{}) vh.Event {
 	// whatever is still up must stop promptly when told to
 	prompt := within2(2*time.Second, cancelA) && within2(2*time.Second, cancelB)
 	ev["stopA10"], ev["stopB10"], ev["ok"] = stopA, stopB, prompt
+	ev["late_ms"] = int(atomic.LoadInt64(&late))
 	return ev
 }
 
